@@ -1,5 +1,66 @@
-import XsVerif.Driver.Util
-open Lean XsVerif.Driver
+import XsVerif.Driver.CMJson
+import XsVerif.Model.Upa
+import XsVerif.Model.CheckModel
+open Lean XsVerif.Driver XsVerif.Wildcard XsVerif.CM XsVerif
 
--- stub: replaced when the model of C15 lands
-def main : IO Unit := XsVerif.Driver.run fun _ => .error "C15 driver not implemented"
+namespace XsVerif.Driver.C15
+
+def parseQT (j : Json) : Except String (QN × Nat) := do
+  let a ← j.getArr?
+  if h : a.size = 3 then
+    return (⟨← a[0].getStr?, ← a[1].getStr?⟩, ← a[2].getNat?)
+  else throw "qname+type"
+
+def parseEInfo (j : Json) : Except String (Nat × EInfo) := do
+  let id ← getNat j "id"
+  let name ← parseQN (← j.getObjVal? "name")
+  let ty ← getNat j "ty"
+  let sgHead ← match j.getObjVal? "sg" with
+    | .ok .null => pure none
+    | .ok v => some <$> parseQN v
+    | .error e => throw e
+  let direct ← (← getArr j "direct").toList.mapM parseQN
+  let subs ← (← getArr j "subs").toList.mapM parseQT
+  return (id, { name, ty, sgHead, direct, subs })
+
+def parseTypes (j : Json) : Except String (Nat × List (QN × Nat)) := do
+  let a ← j.getArr?
+  if h : a.size = 2 then
+    return (← a[0].getNat?, ← (← a[1].getArr?).toList.mapM parseQT)
+  else throw "type table entry"
+
+def symJson (c : ASym) : Json := Json.arr #[c.1.ns, c.1.loc, c.2]
+
+def errJson' : Option CMErr → List (String × Json)
+  | none => [("res", "ok"), ("pair", Json.arr #[])]
+  | some (.edc e pe) => [("res", "edc"), ("pair", Json.arr #[e, pe])]
+  | some (.sameGroup pe e) => [("res", "group"), ("pair", Json.arr #[pe, e])]
+  | some (.upa pe e) => [("res", "upa"), ("pair", Json.arr #[pe, e])]
+
+/-- request: {"v11","n","model","einfo","defined","sigma","types","fuel"}
+    answer:  {"m": port of check_model, "o": proved oracle} -/
+def handle (j : Json) : Except String Json := do
+  let v11 ← getBool j "v11"
+  let n ← getNat j "n"
+  let (p, nodes) ← parseParticle (← j.getObjVal? "model")
+  let infos ← (← getArr j "einfo").toList.mapM parseEInfo
+  let defined ← (← getArr j "defined").toList.mapM parseQN
+  let sigma ← (← getArr j "sigma").toList.mapM parseQN
+  let types ← (← getArr j "types").toList.mapM parseTypes
+  let fuel ← getNat j "fuel"
+  let M := mkCtx v11 n nodes infos defined
+  let r := M.checkModel p
+  let mJ := Json.mkObj (errJson' r.err ++ [
+    ("precs", Json.arr (r.precs.map fun (w, e) => Json.arr #[w, e]).toArray),
+    ("trace", Json.arr (r.trace.map fun (a, b, d) => Json.arr #[a, b, d]).toArray)])
+  let oJ := match upaOracle sigma v11 p fuel with
+    | .cert S => Json.mkObj [("upa", "det"), ("states", S.length)]
+    | .witness u c1 c2 => Json.mkObj [("upa", "nondet"),
+        ("wit", Json.mkObj [("u", Json.arr (u.map symJson).toArray), ("c1", symJson c1), ("c2", symJson c2)])]
+    | .unknown => Json.mkObj [("upa", "unknown")]
+  return Json.mkObj [("m", mJ), ("o", oJ), ("edc", edcCheck types p),
+    ("nsyms", (symsOf sigma p).length)]
+
+end XsVerif.Driver.C15
+
+def main : IO Unit := XsVerif.Driver.run XsVerif.Driver.C15.handle
